@@ -26,7 +26,7 @@ const GARBAGE_CELLS: u64 = IMPOSTOR_CELLS;
 /// an https proxy and an origin of the same name, the proxy's certificate good, the origin's not: 3 x flags
 const SAMENAME_CELLS: u64 = 12;
 /// host names with a leading dot, a trailing dot or an empty label x hostname waiver
-const ODDNAME_CELLS: u64 = 12;
+const ODDNAME_CELLS: u64 = 16;
 pub const CELLS: u64 = MATRIX + TUNNEL_CELLS + IMPOSTOR_CELLS + NOTYET_CELLS + GARBAGE_CELLS + SAMENAME_CELLS + ODDNAME_CELLS;
 
 #[derive(Clone, Copy, Debug, PartialEq, Eq)]
@@ -236,11 +236,18 @@ fn tunnel_run(ctx: &RunCtx, cell: u64, outer: &'static str, inner: &'static str,
 /// nobody may be accepted under these names; a name check that treats ".test" as "anything under test" would.
 fn odd_name_cell(g: &mut G, ctx: &RunCtx, cell: u64) -> RunReport {
     let _ = g;
-    let host = [".test", ".secure.test", "secure..test", "test", ".a.test", "x.secure.test"][(cell % 6) as usize];
-    let accept_hosts = (cell / 6) % 2 == 1;
+    // the last four cells: an address literal in the URL, and a `Host` field of the caller's that names the
+    // host the peer's certificate is for - the peer is authenticated against the URL, not against a header
+    let by_header = cell >= 12;
+    let host = if by_header { "10.0.0.5" } else { [".test", ".secure.test", "secure..test", "test", ".a.test", "x.secure.test"][(cell % 6) as usize] };
+    let accept_hosts = !by_header && (cell / 6) % 2 == 1;
+    let fixture = if by_header { "good-wrongname" } else { "good" };
+    let caller_host = if by_header { Some(["wrong.test", "wrong.test:443", "WRONG.test", "wrong.test."][(cell % 4) as usize]) } else { None };
     let sim = Sim::new(ctx.sim_config());
     let ip: IpAddr = "10.0.0.5".parse().unwrap();
-    sim.add_host(host, vec![ip]);
+    if !by_header {
+        sim.add_host(host, vec![ip]);
+    }
     let seen = Arc::new(Mutex::new(Seen::default()));
     let log = Arc::new(Mutex::new(TlsLog::default()));
     {
@@ -251,7 +258,7 @@ fn odd_name_cell(g: &mut G, ctx: &RunCtx, cell: u64) -> RunReport {
             ConnectBehaviour::Accept { latency_ns: NS_PER_MS },
             Some(Box::new(move |i| {
                 let http = HttpPeer::new(Arc::new(|_r, _c| ok_script("secret")), seen.clone());
-                Box::new(TlsPeer::new("good", Box::new(http), log.clone(), i.conn))
+                Box::new(TlsPeer::new(fixture, Box::new(http), log.clone(), i.conn))
             })),
         );
     }
@@ -266,6 +273,9 @@ fn odd_name_cell(g: &mut G, ctx: &RunCtx, cell: u64) -> RunReport {
         if accept_hosts {
             rb = rb.danger_accept_invalid_hostnames(true);
         }
+        if let Some(h) = caller_host {
+            rb = rb.header("Host", h);
+        }
         match rb.send() {
             Ok(r) => Ok(r.status().as_u16()),
             Err(e) => Err(err_kind(&e)),
@@ -274,7 +284,7 @@ fn odd_name_cell(g: &mut G, ctx: &RunCtx, cell: u64) -> RunReport {
     let mut stats = Stats::default();
     stats.absorb(&out.history);
     let plain_in: usize = log.lock().unwrap().sessions.iter().map(|s| s.plaintext_in).sum();
-    let tag = format!("OddName:{}:hosts={}", host, accept_hosts);
+    let tag = format!("OddName:{}:hosts={}:caller-host={:?}", host, accept_hosts, caller_host);
     let verdict = match &out.result {
         None => violation("hang", "torn down"),
         Some(Err(m)) => violation("panic", m.clone()),
@@ -282,7 +292,7 @@ fn odd_name_cell(g: &mut G, ctx: &RunCtx, cell: u64) -> RunReport {
         Some(Ok(_)) if accept_hosts => Verdict::Pass,
         Some(Ok(Ok(st))) => violation(
             format!("unauthenticated-peer-accepted:OddName:{}", host),
-            format!("https://{}/ was answered with status {} by a peer whose certificate names secure.test, a.test, b.test, c.test, proxy.test, origin.test and two addresses - not {:?} ({})", host, st, host, tag),
+            format!("https://{}/ was answered with status {} by a peer whose certificate (fixture {}) does not name {:?} ({})", host, st, fixture, host, tag),
         ),
         Some(Ok(Err(_))) if plain_in > 0 => violation(format!("request-sent-to-unauthenticated-peer:OddName:{}", host), format!("{} plaintext bytes reached the peer ({})", plain_in, tag)),
         Some(Ok(Err(_))) => Verdict::Pass,
@@ -398,6 +408,8 @@ fn matrix_cell(g: &mut G, ctx: &RunCtx, cell: u64, special: Special) -> RunRepor
     // a sent sibling in the "other CA" cells adds *our* CA while the request under test adds the other one:
     // two siblings with one added root each, and not the same one
     let two_cas = place == Place::SiblingSent && root == Root::OtherAfterDecoy;
+    // half of the Override cells: the request overrides one of the two flags only
+    let override_certs_only = place == Place::Override && (cell / 7) % 2 == 1;
     let (eff_certs, eff_hosts, eff_root) = if place == Place::Sibling || place == Place::SiblingSent { (false, false, two_cas) } else { (accept_certs, accept_hosts, root_added) };
     // the unrelated CA is the issuer of the "unknown issuer" fixtures: adding it makes exactly those chains valid
     let chain_ok = !not_yet && eff_root && ((chain == Chain::ToAddedRoot && root == Root::Ours) || (chain == Chain::UnknownIssuer && root == Root::OtherAfterDecoy));
@@ -501,9 +513,15 @@ fn matrix_cell(g: &mut G, ctx: &RunCtx, cell: u64, special: Special) -> RunRepor
         if !decoy_ok {
             return (Err("decoy-session-failed".to_string()), 0);
         }
-        if place == Place::Override {
+        if place == Place::Override && !override_certs_only {
             session.danger_accept_invalid_certs(true);
             session.danger_accept_invalid_hostnames(true);
+        }
+        if place == Place::Override && override_certs_only {
+            // the session waives certificates (and has the cell's hostname setting); the request takes the
+            // certificate waiver back and says nothing about host names
+            session.danger_accept_invalid_certs(true);
+            session.danger_accept_invalid_hostnames(accept_hosts);
         }
         if place == Place::Toggle {
             session.danger_accept_invalid_certs(true);
@@ -575,7 +593,12 @@ fn matrix_cell(g: &mut G, ctx: &RunCtx, cell: u64, special: Special) -> RunRepor
                 rb = rb.add_root_certificate(my_root());
             }
         }
-        if place == Place::Request || place == Place::Override {
+        if place == Place::Override && override_certs_only {
+            rb = rb.danger_accept_invalid_certs(accept_certs);
+            if root_added {
+                rb = rb.add_root_certificate(my_root());
+            }
+        } else if place == Place::Request || place == Place::Override {
             rb = rb.danger_accept_invalid_certs(accept_certs).danger_accept_invalid_hostnames(accept_hosts);
             if root_added {
                 rb = rb.add_root_certificate(my_root());
